@@ -1036,7 +1036,7 @@ static int tag_goto(char *cw, int dir)
 	ex_command(cmd);
 	ln = lbuf_get(xb, xrow);
 	if (ln && (s = strstr(ln, cw)) != NULL)
-		xoff = s - ln;
+		xoff = uc_off(ln, s - ln);
 	return 0;
 }
 
